@@ -9,7 +9,7 @@ def main():
     assert kendall.selftest()
     print('selftest: kendall tau-b reference ok')
     import importlib
-    for name in ('kde', 'mvn', 'rvine', 'rng_model'):
+    for name in ('kde', 'mvn', 'rvine', 'samplers', 'archimedean_np'):
         try:
             m = importlib.import_module(f'mc.ref.{name}')
         except ModuleNotFoundError:
